@@ -166,7 +166,8 @@ Example ping_iff_nonvacuous :
             id_of s 0%nat = Some 1 /\ result_of s 0%nat = Some RNil /\
             id_of s 2%nat = Some 3 /\ result_of s 2%nat = None.
 Proof.
-  eexists. split; [reflexivity|]. split; [apply (alwaysb_spec false youngb young _ youngb_spec); reflexivity|].
-  split; [|repeat split; reflexivity].
+  eexists. split; [vm_compute; reflexivity|].
+  split; [apply (alwaysb_spec false youngb young _ youngb_spec); vm_compute; reflexivity|].
+  split; [|repeat split; vm_compute; reflexivity].
   cbn. intros [H|[H|[H|[H|[H|H]]]]]; try discriminate; exact H.
 Qed.
